@@ -1029,3 +1029,26 @@ fn p1_page(page: Page<Size4KiB>, recursive_index: PageTableIndex) -> Page {
         page.p2_index(),
     )
 }
+
+/// Verification hook H3: expose the computed recursive table pages (private helpers above) so
+/// that all 512 recursive indices can be checked as pure functions.
+#[cfg(feature = "verif_hooks")]
+#[doc(hidden)]
+pub mod verif_hooks {
+    use super::*;
+
+    /// The page through which the level-3 table of `page` is reached.
+    pub fn p3_page_of<S: PageSize>(page: Page<S>, recursive_index: PageTableIndex) -> Page {
+        p3_page(page, recursive_index)
+    }
+
+    /// The page through which the level-2 table of `page` is reached.
+    pub fn p2_page_of<S: NotGiantPageSize>(page: Page<S>, recursive_index: PageTableIndex) -> Page {
+        p2_page(page, recursive_index)
+    }
+
+    /// The page through which the level-1 table of `page` is reached.
+    pub fn p1_page_of(page: Page<Size4KiB>, recursive_index: PageTableIndex) -> Page {
+        p1_page(page, recursive_index)
+    }
+}
